@@ -282,7 +282,32 @@ pub fn band_q() -> Q {
     Q::frac(1, 10_000)
 }
 
+/// Classification by exact uniform slack. Rows `0.x <= b` with `b >= 0` are satisfied by every point
+/// with no notion of distance; they are left out of the slack computation (otherwise a row
+/// `0 <= 0` would make every set look "thin"). The returned certificate refers to the remaining
+/// rows (its dual vector is padded with zeros for the rows left out).
 pub fn classify(sys: &Sys) -> Result<(Band, SlackCert), String> {
+    let taut: Vec<bool> = sys.a.iter().zip(sys.b.iter()).map(|(r, b)| r.iter().all(|v| v.is_zero()) && !b.is_neg()).collect();
+    if taut.iter().any(|t| *t) {
+        let mut red = Sys::new(sys.n);
+        for (i, t) in taut.iter().enumerate() {
+            if !*t {
+                red.push(sys.a[i].clone(), sys.b[i].clone());
+            }
+        }
+        let (band, c) = classify(&red)?;
+        let mut y = Vec::with_capacity(sys.m());
+        let mut k = 0;
+        for t in taut.iter() {
+            if *t {
+                y.push(Q::zero());
+            } else {
+                y.push(c.y[k].clone());
+                k += 1;
+            }
+        }
+        return Ok((band, SlackCert { t: c.t, x: c.x, y, ycap: c.ycap }));
+    }
     let cert = max_slack(sys, &Q::one())?;
     let band = band_q();
     let b = if cert.t.ge(&band) {
